@@ -23,10 +23,13 @@ import BioCantor.Proofs.ValTx
 import BioCantor.Proofs.ValVar
 import BioCantor.Proofs.ValScan
 import BioCantor.Proofs.ValWindows
+import BioCantor.Proofs.ValMore
+import BioCantor.Proofs.ValColl
+import BioCantor.Proofs.ValPairs
 namespace BioCantor.Props.C19
 open BioCantor BioCantor.Model BioCantor.Model.Validate BioCantor.Proofs.Val
 open BioCantor.Spec.Validate (okMkSingle okMkCompound okMkParent okMkSeq okMkCDS okMkTx okMkVarColl okScanWin ascending
-  upperAscii validTx)
+  upperAscii validTx okMkVar okMkCodon okFromInt okFromSymbol okMkFeature okMkColl okMkAnnot okAppend distinctNat)
 
 /-! ### SingleInterval -/
 
@@ -189,6 +192,125 @@ theorem scan_windows_wf (l : Location) (h : Proofs.WF l) (w step sp : Int) (ws :
 
 example : Proofs.WF (.compound ⟨[(0, 3), (5, 8)], .minus⟩) := by decide
 
+/-! ### VariantInterval, Codon, enum lookups -/
+
+/-- T10 `VariantInterval(start, end, sequence)`, ALL arguments: refused ⇔ `start == end` (EmptyLocationException),
+    reversed / negative window, or an ALT letter outside the alphabet (here: any alphabet; the library uses
+    NT_STRICT_UNKNOWN). -/
+theorem variant_spec (alph : List Char) (s e : Int) (alt : List Char) :
+    okMkVar alph s e alt (outOf projVar (mkVariantFull alph s e alt)) = true :=
+  mkVariantFull_spec alph s e alt
+
+/-- T11 `Codon(str)`, ALL strings, with the GENERATED alphabet `Gen.codonAlphabet`: built ⇔ exactly three letters of
+    the alphabet after upper-casing; otherwise ValueError; the value is the upper-cased string. -/
+theorem codon_spec (s : List Char) :
+    okMkCodon Gen.codonAlphabet s (outOf id (mkCodon Gen.codonAlphabet s)) = true :=
+  mkCodon_spec Gen.codonAlphabet s
+
+/-- T12 `Strand.from_int` / `CDSFrame.from_int` / `CDSPhase.from_int` (prelude kernels `GenP.*OfInt`), ALL ints: the
+    member whose value is the argument; ValueError for every other int; never KeyError. -/
+theorem from_int_spec (v : Int) :
+    okFromInt [1, -1, 0] v (outPy Strand.value (GenP.strandOfInt v)) = true ∧
+    okFromInt [-1, 0, 1, 2] v (outPy CDSFrame.value (GenP.frameOfInt v)) = true ∧
+    okFromInt [-1, 0, 1, 2] v (outPy CDSPhase.value (GenP.phaseOfInt v)) = true :=
+  ⟨strandOfInt_spec v, frameOfInt_spec v, phaseOfInt_spec v⟩
+
+/-- T13 `Strand.from_symbol` (GENERATED kernel `Gen.Strand_from_symbol`), ALL strings: `+ - .` give the member with that
+    symbol, everything else ValueError. -/
+theorem from_symbol_spec (s : List Char) :
+    okFromSymbol s (outPy id (Gen.Strand_from_symbol s)) = true :=
+  strand_from_symbol_spec s
+
+/-! ### FeatureInterval -/
+
+/-- T14 (partial).  Full statement: `∀ starts ends st q, okMkFeature starts ends (specQual q) (out …) = true` (refused ⇔
+    invalid block lists or qualifiers that are not a dict of lists; built ⇒ start = smallest start, end = largest
+    end).  FAILS for lists not in ascending order (F-C19i).  Proved for ascending lists. -/
+theorem feature_spec_partial (starts ends : List Int) (st : Strand) (q : QualShape)
+    (hasc : ascending (starts.zip ends) = true) :
+    okMkFeature starts ends (specQual q) (outOf projFeat (mkFeature starts ends st q)) = true :=
+  mkFeature_spec_partial starts ends st q hasc
+
+example : ascending ([2, 8].zip [5, 9]) = true := by decide
+
+/-- F-C19i witness for FeatureInterval -/
+theorem feature_unsorted_witness :
+    (mkFeature [15, 5] [20, 10] .plus .none).toOption.map projFeat = some (15, 10) :=
+  mkFeature_unsorted_witness
+
+/-! ### GeneInterval / FeatureIntervalCollection / AnnotationCollection -/
+
+/-- T15 `GeneInterval(transcripts, qualifiers)` over well-formed children (what T6 returns), ANY number of children:
+    refused ⇔ no children (InvalidAnnotationError), qualifiers of the wrong shape, two primary flags
+    (ValidationException) or a repeated guid (DuplicateTranscriptError); built ⇒ `start` = smallest child start,
+    `end` = largest child end. -/
+theorem gene_spec (cs : List Child) (q : QualShape) (hwf : ChildrenWF cs) :
+    okMkColl (cs.map specChild) (specQual q) (outOf id (mkColl true cs q)) = true :=
+  mkColl_spec true cs q hwf
+
+/-- T16 the same for `FeatureIntervalCollection(feature_intervals, qualifiers)` (DuplicateFeatureError) -/
+theorem feature_collection_spec (cs : List Child) (q : QualShape) (hwf : ChildrenWF cs) :
+    okMkColl (cs.map specChild) (specQual q) (outOf id (mkColl false cs q)) = true :=
+  mkColl_spec false cs q hwf
+
+example : ChildrenWF [⟨0, 3, 0, true⟩, ⟨2, 9, 1, false⟩] := by
+  intro c hc; simp at hc; rcases hc with rfl | rfl <;> decide
+
+/-- T17 (partial).  Full statement: `∀ start end kids, okMkAnnot start end (kids.map specChild) (out …) = true` (refused ⇔
+    only one of start/end, bounds that are not `0 ≤ start ≤ end`, or two children with the same guid; built ⇒ the given
+    bounds, else smallest start / largest end of the children, else an empty collection).  FAILS for repeated guids
+    (F-C19o: the guid map is a dict comprehension).  Proved for well-formed children with distinct guids. -/
+theorem annotation_collection_spec_partial (start endp : Option Int) (kids : List Child) (hwf : ChildrenWF kids)
+    (hdist : distinctNat (kids.map (·.guid)) = true) :
+    okMkAnnot start endp (kids.map specChild) (outOf projAnnot (mkAnnot start endp kids)) = true :=
+  mkAnnot_spec_partial start endp kids hwf hdist
+
+example : ChildrenWF [⟨0, 3, 0, false⟩, ⟨2, 7, 1, false⟩] ∧
+    distinctNat (([⟨0, 3, 0, false⟩, ⟨2, 7, 1, false⟩] : List Child).map (·.guid)) = true := by
+  refine ⟨?_, by decide⟩
+  intro c hc; simp at hc; rcases hc with rfl | rfl <;> decide
+
+/-- F-C19o witness: two children with the same guid are accepted -/
+theorem annotation_collection_duplicate_witness :
+    mkAnnot none none [⟨0, 3, 0, false⟩, ⟨0, 3, 0, false⟩] = .ok (.bounds 0 3) ∧
+    okMkAnnot none none [(0, 3, 0, false), (0, 3, 0, false)] (.ok (some (0, 3))) = false :=
+  mkAnnot_duplicate_witness
+
+/-! ### Sequence.append; parent compatibility of operand lists -/
+
+/-- T18 `x.append(y)` for two non-empty located pieces of a parent `P` (C03's `Model.Sq.append`, nucleotide alphabet),
+    ALL positions and strands: refused exactly for different / undirected strands or a second piece that does not follow
+    the first one without overlap (plus: to its right, minus: to its left); otherwise `len(data) = len(location)`, the
+    location lies inside the parent, covers exactly the two pieces, and reads the text (C03-T4). -/
+theorem append_spec (P alph : List Char) (hnt : Spec.Sq.isNt alph = true) (st1 st2 : Strand) (a b : Blk)
+    (ha : a.1 < a.2) (hb : b.1 < b.2) (hwa : a.2 ≤ P.length) (hwb : b.2 ≤ P.length)
+    (dx dy : List Char) (px py : Option Strand)
+    (hx : st1.isDirectional = true → Spec.Sq.expectExtract P alph (.single a st1) = some dx)
+    (hy : st2.isDirectional = true → Spec.Sq.expectExtract P alph (.single b st2) = some dy) :
+    okAppend P.length st1 a.1 a.2 st2 b.1 b.2 false
+      (outAppend P alph (Model.Sq.append P ⟨dx, some ⟨px, some (.single a st1)⟩⟩ ⟨dy, some ⟨py, some (.single b st2)⟩⟩)) = true :=
+  append_pieces_spec P alph hnt st1 st2 a b ha hb hwa hwb dx dy px py hx hy
+
+example : Spec.Sq.isNt "NT_STRICT".toList = true ∧
+    Spec.Sq.expectExtract "ACGTTGCA".toList "NT_STRICT".toList (.single (4, 7) .minus) = some "GCA".toList := by
+  decide +kernel
+
+/-- T19 every multi-operand operation (from_single_intervals, Parent(sequence.parent vs parent), Sequence.append,
+    location_relative_to, the binary location operations) x every ordered pair of the 10 parent kinds of the grid: the
+    modelled parent test refuses exactly the pairs whose plain descriptors are incompatible, with a documented class. -/
+theorem parent_rule_pairs (op : POp) (i j : Nat) (hi : i < 10) (hj : j < 10) : pconsPoint op [i, j] = true :=
+  pcons_pairs op i j hi hj
+
+/-- T19' from_single_intervals x every ordered triple of the 10 parent kinds -/
+theorem from_single_intervals_triples (i j k : Nat) (hi : i < 10) (hj : j < 10) (hk : k < 10) :
+    pconsPoint .fsi [i, j, k] = true :=
+  fsi_triples i j k hi hj hk
+
+/-- T19'' for ANY operand list: from_single_intervals accepts exactly when every parent equals the first one -/
+theorem from_single_intervals_exact (k : PKey) (rest : List PKey) :
+    fsiParents (k :: rest) = .ok () ↔ ∀ k' ∈ rest, k' = k :=
+  fsiParents_ok_iff k rest
+
 /-! ### never an internal error, for ALL arguments -/
 
 /-- T9 every modelled constructor ends in an object or a documented class, for every argument value. -/
@@ -200,9 +322,13 @@ theorem never_internal :
     (∀ starts ends st fps, NoInternal (mkCDS starts ends st fps)) ∧
     (∀ exS exE st cdsS cdsE cdsF, NoInternal (mkTx exS exE st cdsS cdsE cdsF)) ∧
     (∀ raw, NoInternal (mkVarColl raw)) ∧
-    (∀ l w step sp, NoInternal (scanWinCount l w step sp)) := by
+    (∀ l w step sp, NoInternal (scanWinCount l w step sp)) ∧
+    (∀ starts ends st q, NoInternal (mkFeature starts ends st q)) ∧
+    (∀ start endp kids, NoInternal (mkAnnot start endp kids)) ∧
+    (∀ g cs q, ChildrenWF cs → NoInternal (mkColl g cs q)) := by
   refine ⟨?_, mkCompoundRaw_noInternal, mkParent_noInternal, mkSeq_noInternal, mkCDS_noInternal, mkTx_noInternal,
-    mkVarColl_noInternal, scanWinCount_noInternal⟩
+    mkVarColl_noInternal, scanWinCount_noInternal, mkFeature_noInternal, mkAnnot_noInternal,
+    fun g cs q h => mkColl_noInternal g cs q h⟩
   intro s e st plen c h
   have := mkSingleP_spec s e st plen
   rw [h] at this
